@@ -29,6 +29,10 @@ CHECKS = {
             "Every loop header (ranges incl. empty and overshooting steps, value lists in 3 bracket styles, 4 types) x every body shape x 4 contexts is loaded and compared, operation by operation (exact canonical digests), with the load of its textual unrolling; loop-variable scoping and wrong-type refusals checked for every header. Complete for the stated alphabet.",
             "Trusted: the unrolling transformation (string substitution of a bracketed literal) and Python range semantics.",
             "DESIGN.md section 5 C06"),
+    "C11": ("exploration", "bounded-exhaustive single-fault injection into valid scripts (fault class x slot x position)",
+            "Valid prefix x valid suffix x exactly one fault from the complete menu (undefined name in every syntactic slot incl. metadata options, reserved names in every declaration form, non-integer modes of every value kind, literal and computed complex values into int/float scalars, arrays and loops, wrong-type loop values, mismatched include calls): loading must raise, and for undefined/reserved names raise BlackbirdSyntaxError with identifier, line and column.",
+            "Exception type constrained only where the property names it; column accepted 0- or 1-based.",
+            "DESIGN.md section 5 C11"),
     # id: (category, technique, text, note, design_ref)
     "C02": ("exploration", "bounded-exhaustive enumeration of script prefixes (BFS over item sequences) vs reference denotation",
             "Every item sequence over the statement menu up to the stated depth is rendered, loaded by the real parser/evaluator and compared with an independently written reference denotation; complete for the stated alphabet and depth, nothing beyond.",
